@@ -80,3 +80,52 @@ static Reg r_rc4("rc4", [](std::vector<std::string> const& a) -> std::string {
     p.finish();
     return hex(sink.out);
 });
+
+// limit <rld|flate> <limit> <nchunks> <chunk hex> : the decoder with its protective memory limit switched on, fed <nchunks>
+// copies of the chunk one write() at a time; reports at which write (1-based) the limit error was raised (0 = only in
+// finish(), -1 = never) - C04: "with the library's protective limits switched on ... memory out of proportion"
+#include <qpdf/Pl_Flate.hh>
+static Reg r_limit("limit", [](std::vector<std::string> const& a) -> std::string {
+    std::string name = a.at(0);
+    unsigned long long limit = std::stoull(a.at(1));
+    int n = std::stoi(a.at(2));
+    std::string chunk = unhex(a.at(3));
+    Sink sink;
+    std::unique_ptr<Pipeline> p;
+    unsigned long long old_flate = Pl_Flate::memory_limit();
+    if (name == "rld") {
+        Pl_RunLength::setMemoryLimit(limit);
+        p = std::make_unique<Pl_RunLength>("f", &sink, Pl_RunLength::a_decode);
+    } else if (name == "flate") {
+        Pl_Flate::memory_limit(limit);
+        p = std::make_unique<Pl_Flate>("f", &sink, Pl_Flate::a_inflate);
+    } else {
+        return "?unknown";
+    }
+    int raised_at = -1;
+    std::string msg;
+    try {
+        for (int i = 1; i <= n; ++i) {
+            try {
+                p->write(reinterpret_cast<unsigned char const*>(chunk.data()), chunk.size());
+            } catch (std::exception const& e) {
+                raised_at = i;
+                msg = e.what();
+                break;
+            }
+        }
+        if (raised_at < 0) {
+            try {
+                p->finish();
+            } catch (std::exception const& e) {
+                raised_at = 0;
+                msg = e.what();
+            }
+        }
+    } catch (...) {
+        msg = "?";
+    }
+    Pl_RunLength::setMemoryLimit(0);
+    Pl_Flate::memory_limit(old_flate);
+    return std::to_string(raised_at) + " " + std::to_string(sink.out.size());
+});
